@@ -78,10 +78,65 @@ def mk_conservative(k):
     return f
 
 
+def _invalidate_units(p):
+    from loki.frontend.source import SourceStatus  # pylint: disable=import-outside-toplevel
+    u = p.entry
+    while u is not None:
+        if getattr(u, 'source', None) is not None:
+            u.source.status = SourceStatus.INVALID_CHILDREN
+        contains = getattr(u, 'contains', None)
+        if contains is not None and getattr(contains, 'source', None) is not None:
+            contains.source.status = SourceStatus.INVALID_CHILDREN
+        u = getattr(u, 'parent', None)
+    if getattr(p.sourcefile.ir, 'source', None) is not None:
+        p.sourcefile.ir.source.status = SourceStatus.INVALID_CHILDREN
+
+
+def edit_headers(routine, which):
+    """second kind of local modification: the HEADER expressions of control-flow nodes (loop bounds, IF conditions) are
+    changed by an expression substitution; returns the number of nodes changed"""
+    from loki.ir import SubstituteExpressions  # pylint: disable=import-outside-toplevel
+    mapper = {}
+    if which in ('loops', 'both'):
+        for l in FindNodes(ir.Loop).visit(routine.body):
+            b = l.bounds
+            if b.step is None or str(b.step) in ('1',):
+                mapper[b] = sym.LoopRange((b.start, sym.Sum((b.stop, sym.IntLiteral(-1))), b.step))
+    if which in ('conds', 'both'):
+        for c in FindNodes(ir.Conditional).visit(routine.body):
+            if not c.inline:
+                mapper[c.condition] = sym.LogicalNot(c.condition)
+    if mapper:
+        routine.body = SubstituteExpressions(mapper).visit(routine.body)
+    return len(mapper)
+
+
+def mk_conservative_seq(k, which, header_first):
+    """two modifications in sequence (body statement, then header expressions of the enclosing constructs -- or the other
+    way round): every node whose text is re-used must still describe the current IR"""
+    def f(p):
+        steps = [lambda: edit_kth(p.entry, k), lambda: edit_headers(p.entry, which)]
+        if header_first:
+            steps.reverse()
+        done = [st() for st in steps]
+        if not all(done):
+            raise RuntimeError('no numeric assignment / no header to edit')
+        _invalidate_units(p)
+        text = p.sourcefile.to_fortran(conservative=True)
+        q = Prog.from_source(text, p.entry.name, absent=p.absent)
+        p.text = None
+        return (p, q)
+    return f
+
+
 def conservative_unmodified(p):
     text = p.sourcefile.to_fortran(conservative=True)
     q = Prog.from_source(text, p.entry.name, absent=p.absent)
     return q
+
+
+# a conservative output that cannot be produced or cannot be read back is a violation ("no numeric assignment to edit" is not)
+CONS_RAISES = ('FortranSyntaxError', 'TypeError', 'AttributeError', 'AssertionError', 'KeyError', 'IndexError', 'ValueError')
 
 
 def c03_cases():
@@ -89,7 +144,12 @@ def c03_cases():
     for name, src, entry, sizes in sources(pragmas=True):
         out.append(Case(f'{name}/unmodified', src, entry, sizes[:1], conservative_unmodified, 'conservative', must_change=False, trace_pragmas=name.startswith('prag-')))
         for k in (0, 1, 3):
-            out.append(Case(f'{name}/edit{k}', src, entry, sizes[:1], mk_conservative(k), 'conservative', must_change=False, trace_pragmas=name.startswith('prag-')))
+            out.append(Case(f'{name}/edit{k}', src, entry, sizes[:1], mk_conservative(k), 'conservative', must_change=False, trace_pragmas=name.startswith('prag-'),
+                            raise_is_violation=CONS_RAISES))
+        for k, which, hf in ((0, 'loops', False), (1, 'conds', False), (0, 'both', True), (2, 'both', False)):
+            out.append(Case(f"{name}/edit{k}-{'then' if not hf else 'after'}-{which}-headers", src, entry, sizes[:1],
+                            mk_conservative_seq(k, which, hf), 'conservative', must_change=False, trace_pragmas=name.startswith('prag-'),
+                            raise_is_violation=CONS_RAISES))
     return out
 
 
@@ -172,6 +232,7 @@ def retype_original_then_inline(src):
 def clone_scoped(p):
     c = p.sourcefile.clone()
     assert_scoped_through(c, 'clone')
+    assert_same_types(p.sourcefile, c, 'clone')
     return Prog.from_sourcefile(c, p.entry.name, absent=p.absent)
 
 
@@ -236,6 +297,60 @@ def pickled_sourcefile(p):
     return Prog.from_sourcefile(sf, p.entry.name, absent=p.absent)
 
 
+def _type_fingerprint(t):
+    """attribute-by-attribute description of a SymbolAttributes object that can be compared across copies"""
+    out = {}
+    for k, v in sorted(getattr(t, '__dict__', {}).items()):
+        if v is None or v is False:
+            continue
+        if k == 'module':
+            out[k] = f'<module {getattr(v, "name", v)}>'
+        elif k == 'dtype':
+            out[k] = f'{type(v).__name__}:{v}'
+        elif isinstance(v, (tuple, list)):
+            out[k] = tuple(str(x) for x in v)
+        else:
+            out[k] = str(v)
+    return out
+
+
+def assert_same_types(sf1, sf2, what):
+    """property C18: the symbols of the copy carry the same types as the original's (every attribute, including the link to
+    the defining module of imported symbols) and are attached to the copy's own scopes"""
+    def units(sf):
+        todo = list(sf.modules) + list(sf.routines)
+        out = []
+        while todo:
+            u = todo.pop(0)
+            out.append(u)
+            todo += list(getattr(u, 'members', ()) or ()) + list(getattr(u, 'subroutines', ()) or ())
+        return out
+    u1, u2 = units(sf1), units(sf2)
+    if [u.name for u in u1] != [u.name for u in u2]:
+        raise AssertionError(f'{what}: program units differ: {[u.name for u in u1]} vs {[u.name for u in u2]}')
+    own = {id(u) for u in u2}
+    for a, b in zip(u1, u2):
+        names1 = sorted(str(k).lower() for k in a.symbol_attrs.keys())
+        names2 = sorted(str(k).lower() for k in b.symbol_attrs.keys())
+        if names1 != names2:
+            raise AssertionError(f'{what}: symbol table of {a.name} differs: {sorted(set(names1) ^ set(names2))[:5]}')
+        for n in names1:
+            f1, f2 = _type_fingerprint(a.symbol_attrs[n]), _type_fingerprint(b.symbol_attrs[n])
+            if f1 != f2:
+                diff = {k: (f1.get(k), f2.get(k)) for k in set(f1) | set(f2) if f1.get(k) != f2.get(k)}
+                raise AssertionError(f'{what}: type of {a.name}%{n} differs after the round trip: {diff}')
+        for v in b.variables:
+            sc = getattr(v, 'scope', None)
+            if sc is not None and type(sc).__name__ in ('Subroutine', 'Function', 'Module') and id(sc) not in own:
+                raise AssertionError(f'{what}: variable {v} of {b.name} is attached to a scope outside the copy')
+
+
+def pickled_types(p):
+    sf = pickle.loads(pickle.dumps(p.sourcefile))
+    assert_same_types(p.sourcefile, sf, 'pickle')
+    return Prog.from_sourcefile(sf, p.entry.name, absent=p.absent)
+
+
 def pickled_units(p):
     routines = [pickle.loads(pickle.dumps(r)) for r in p.routines]
     modules = [pickle.loads(pickle.dumps(m)) for m in p.modules]
@@ -251,6 +366,7 @@ def c18_cases():
     for name, src, entry, sizes in sources(pragmas=True):
         out.append(Case(f'{name}/sourcefile', src, entry, sizes[:1], pickled_sourcefile, 'pickle', must_change=False, raise_is_violation=True, trace_pragmas=name.startswith('prag-')))
         out.append(Case(f'{name}/units', src, entry, sizes[:1], pickled_units, 'pickle', must_change=False, raise_is_violation=True, trace_pragmas=name.startswith('prag-')))
+        out.append(Case(f'{name}/same-types', src, entry, sizes[:1], pickled_types, 'pickle', must_change=False, raise_is_violation=True))
     return out
 
 
